@@ -750,3 +750,55 @@ def inlined_envs(ev, root_env, max_depth=4):
                 rec(cenv, depth + 1)
     rec(root_env, 0)
     return out
+
+
+# --------------------------------------------------------------------------- #
+# local call graph: who calls a private helper
+# --------------------------------------------------------------------------- #
+def local_callers(F):
+    """{callee key: set of caller ROOT keys} over resolved local calls and function references"""
+    cs = getattr(F, "_local_callers", None)
+    if cs is None:
+        cs = {}
+        for b in F.bodies.values():
+            for bi, t in b.calls():
+                if "fn" in t:
+                    k = t["fn"].get("resolved_key") or t["fn"].get("key")
+                    if k in F.bodies:
+                        cs.setdefault(k, set()).add(b.j.get("root", b.key))
+            for bi, si, st in b.stmts():
+                if st["k"] == "assign":
+                    rv = st["rv"]
+                    ops = [rv[k] for k in ("op", "a", "b") if isinstance(rv.get(k), dict)] + list(rv.get("ops", []) or [])
+                    for o in ops:
+                        if o.get("k") == "const" and "fn" in o:
+                            k = o["fn"].get("resolved_key") or o["fn"].get("key")
+                            if k in F.bodies:
+                                cs.setdefault(k, set()).add(b.j.get("root", b.key))
+        F._local_callers = cs
+    return cs
+
+
+def stable_name(b):
+    return b.j.get("vis") in ("pub", "crate") or "trait" in b.j.get("impl", {})
+
+
+def stable_ancestors(F, k, cone_keys):
+    """functions with a stable (non-private) name from which the private function k is reached on the cone"""
+    out, seen, work = set(), set(), [F.bodies[k].j.get("root", k)]
+    first = work[0]
+    while work:
+        x = work.pop()
+        if x in seen or x not in F.bodies:
+            continue
+        seen.add(x)
+        if x != first and stable_name(F.bodies[x]):
+            out.add(x)
+            continue
+        callers = set(c for c in local_callers(F).get(x, ()) if c in cone_keys and c != x)
+        if not callers and x != first:
+            out.add(x)
+        work.extend(callers)
+    return out
+
+
